@@ -452,7 +452,7 @@ class Polynomial(Vector):
         # Handily, they always show up first in the array of roots
         max_shifts = total_shifts.max()
         for k in range(max_shifts):
-            root_mask[total_shifts > k, k] = True
+            root_mask[k,...][total_shifts > k] = True
 
         roots = Scalar(root_values, Qube.as_one_bool(root_mask))
         roots = roots.sort(axis=0)
